@@ -218,9 +218,12 @@ class MarketRun:
 
     def op_jump(self, k: int) -> None:
         """Market._set_time: the clock moves k steps at once (what pams' own tests do to skip ahead)."""
-        if "C08" in self.oracles or k < 2:
+        if k < 2:
             return self.op_tick()
         m, M = self.m, self.M
+        # (under C08 the quotes and the depth are still judged after a jump; the price and statistics series of the skipped steps
+        #  follow _set_time's own rules and are left alone from here on)
+        self.jumped = True
         _call(m._set_time, time=M.t + k, next_fundamental_price=self.p0)
         expired = M.clock_jump(k)
         logs = self.new_logs()
@@ -567,6 +570,8 @@ class MarketRun:
                 self.fail("C08", "best_bid", f"after {where}: {m.get_best_buy_price()!r} expected {(bb.price if bb else None)!r}")
             if m.get_best_sell_price() != (ba.price if ba else None):
                 self.fail("C08", "best_ask", f"after {where}: {m.get_best_sell_price()!r} expected {(ba.price if ba else None)!r}")
+            if getattr(self, "jumped", False):
+                return
             mp = m.get_market_prices()
             if mp != M.mp:
                 self.fail("C08", "market_price", f"after {where} (running={M.running}): market prices {mp[-3:]} expected {M.mp[-3:]}")
